@@ -533,7 +533,13 @@ func (pool *hostConnPool) fillingStopped(err error) {
 			// the ring files hosts under their node-to-node address, which is what
 			// handleNodeDown looks up; it differs from the connect address when
 			// rpc_address and peer/broadcast_address differ
-			pool.session.handleNodeDown(host.nodeToNodeAddress(), port)
+			//
+			// a pool that outlived its host (a refresh removed or replaced the host
+			// while the pool was still connecting) says nothing about the host that
+			// is filed under that address now
+			if pool.session.ring.getHost(host.HostID()) == host {
+				pool.session.handleNodeDown(host.nodeToNodeAddress(), port)
+			}
 		}
 	}
 }
